@@ -40,7 +40,7 @@ var c10Hostile = []string{
 type c10Plan struct{ nCorpus, nHostile, nNest, nLong, nRand, nProbe int }
 
 func c10PlanFor(tier string) c10Plan {
-	return c10Plan{nCorpus: len(c10Corpus), nHostile: len(c10Hostile), nNest: 60, nLong: 15, nRand: tierN(tier, 40000, 1000000), nProbe: 4}
+	return c10Plan{nCorpus: len(c10Corpus), nHostile: len(c10Hostile), nNest: 60, nLong: 16, nRand: tierN(tier, 40000, 1000000), nProbe: 4}
 }
 
 // c10Reachable: data in which every identifier the generators use resolves,
@@ -361,6 +361,13 @@ func c10Run(c *mon.Ctx, idx int) {
 				return
 			}
 			s = strings.Repeat("(", 10) + "a == 1 and b != 2 and c in d" + strings.Repeat(")", 10)
+		case 15:
+			// thorough tier only: about 1.2*10^9 steps (a minute per parse)
+			if c.Tier != "thorough" {
+				c.Count("long_inputs")
+				return
+			}
+			s = strings.Repeat("(", 11) + "a == 1 and b == 2 or c == 3 and d == 4" + strings.Repeat(")", 11)
 		}
 		if k >= 8 {
 			c.Risk(fmt.Sprintf("unlimited-parse expensive-valid-%d (must survive)", k))
@@ -370,7 +377,7 @@ func c10Run(c *mon.Ctx, idx int) {
 				c.Violation("C10 valid-expensive-input-rejected", "an expression that is valid by construction was rejected although no budget was given", map[string]any{"input_shape": clip(s, 60), "bytes": len(s), "error": clip(fmt.Sprint(verr)+vpan, 200)})
 				return
 			}
-			if k == 14 {
+			if k >= 14 {
 				ev, cerr, cpan, _ := createEval(s)
 				if cpan != "" || cerr != nil || ev == nil {
 					c.Violation("C10 valid-expensive-input-rejected", "CreateEvaluator rejected an expression that is valid by construction although no budget was given", map[string]any{"input_shape": clip(s, 60), "error": clip(fmt.Sprint(cerr)+cpan, 200)})
